@@ -250,7 +250,7 @@ class KMap:
 
 
 def _num(s):
-    try:
+    import numpy as np
+    if isinstance(s, (int, np.integer)):
         return int(s)
-    except TypeError:
-        return s
+    return s
